@@ -117,8 +117,33 @@ fn ext_mul_carry_cases(e: &mut Emitter, r: &mut Rng, thorough: bool) {
     e.count(&format!("ext-mul times-7 carry cases made: {made}"));
 }
 
+/// `Field::MULTIPLICATIVE_GROUP_GENERATOR` is documented as a generator of the whole multiplicative
+/// group. g generates iff g^((|E|−1)/q) ≠ 1 for every prime q | |E|−1; one small prime factor per
+/// extension is enough to refute it (7 | p+1, 13 | p²+1; 3 | p−1 for the quintic and the base field).
+fn generator_orders(e: &mut Emitter) {
+    use num::BigUint;
+    use plonky2::field::extension::quadratic::QuadraticExtension;
+    use plonky2::field::extension::quartic::QuarticExtension;
+    use plonky2::field::extension::quintic::QuinticExtension;
+    use plonky2::field::types::Field;
+    fn one_q<K: Field>(e: &mut Emitter, name: &str, d: u32, q: u32) {
+        let order = BigUint::from(P).pow(d) - 1u32;
+        assert!((&order % q) == BigUint::from(0u32));
+        let y = K::MULTIPLICATIVE_GROUP_GENERATOR.exp_biguint(&(&order / q));
+        e.count(&format!("generator order probe: {name}, q = {q}"));
+        if y == K::ONE {
+            crate::c09::finding(e, "F-C14-1", format!("MULTIPLICATIVE_GROUP_GENERATOR of {name} is not a generator of the multiplicative group: g^((|E|-1)/{q}) = 1"));
+        }
+    }
+    for q in [2u32, 3, 5, 17, 257, 65537] { one_q::<plonky2::field::goldilocks_field::GoldilocksField>(e, "the base field", 1, q); }
+    for q in [2u32, 3, 5, 7, 179] { one_q::<QuadraticExtension<plonky2::field::goldilocks_field::GoldilocksField>>(e, "the quadratic extension", 2, q); }
+    for q in [2u32, 3, 7, 13, 37, 113, 1429] { one_q::<QuarticExtension<plonky2::field::goldilocks_field::GoldilocksField>>(e, "the quartic extension", 4, q); }
+    for q in [2u32, 3, 5, 17, 257, 65537] { one_q::<QuinticExtension<plonky2::field::goldilocks_field::GoldilocksField>>(e, "the quintic extension", 5, q); }
+}
+
 pub fn emit(e: &mut Emitter, seed: u64, thorough: bool) {
     let mut r = Rng::new(seed);
+    generator_orders(e);
     big_exponents(e, &mut r, thorough);
     ext_mul_carry_cases(e, &mut r, thorough);
     let bd = boundary();
